@@ -180,8 +180,21 @@ def run_model(suite, lines, shards=NPROC):
     exe = os.path.join(COQ, 'extract', 'mxmodel')
     return run_sharded([exe, suite], lines, shards, env=None)
 
+_WARMED = set()
+def warm_parser_tables(env):
+    """the library writes its PLY parser tables into TMPDIR on first import: let ONE process do that before parallel shards start,
+    so that no shard reads a table file another shard is still writing (the outcome of a check must not depend on such a race)"""
+    td = env.get('TMPDIR')
+    if td in _WARMED: return
+    _WARMED.add(td)
+    if os.path.exists(os.path.join(td, 'ply_ia32_intel_20150429.py')) and os.path.exists(os.path.join(td, 'ply_ia32_att_20150429.py')): return
+    try: subprocess.run([PY, '-c', 'import miasmx.arch.ia32_arch, miasmx.arch.ia32_att'], env=env, stdout=subprocess.DEVNULL, stderr=subprocess.DEVNULL, timeout=120)
+    except Exception: pass
+
 def run_impl(script, lines, shards=NPROC, hashseed='0', args=()):
-    return run_sharded([PY, os.path.join(ROOT, 'harness', script)] + list(args), lines, shards, env=impl_env(hashseed))
+    env = impl_env(hashseed)
+    if shards != 1: warm_parser_tables(env)
+    return run_sharded([PY, os.path.join(ROOT, 'harness', script)] + list(args), lines, shards, env=env)
 
 def _run_chunk(cmd, chunk, env, timeout):
     """returns (list of results, None), or (None, reason) on timeout / crash of the runner"""
